@@ -3,7 +3,7 @@ import ast
 
 from ..program import AnalysisError, U, own_nodes, walk_no_nested
 from ..dataflow import ReachingDefs, defs_of_node
-from .common import (need, guards_of, calls_to, ext_calls, all_paths_pass, succs, normal_succs, path_conditions,
+from .common import (match_exact, guard_atom_sets, path_atom_sets, unmatched, need, guards_of, calls_to, ext_calls, all_paths_pass, succs, normal_succs, path_conditions,
                      is_param, arg_of, stores_in_package)
 from .C04 import _paths_avoiding
 
@@ -124,7 +124,7 @@ def exit_(R):
     ok = len(cl) == 1
     if ok:
         lits = {(t, p) for (t, p, _) in guards_of(g, cl[0][0])}
-        ok = lits in ({('self.session is not None', True)}, {('self.state.session is not None', True)})
+        ok = match_exact(guard_atom_sets(g, cl[0][0]), [{('self.session is None', False), ('self.state.session is None', False)}])
     R.ob('C13.exit', '__exit__ closes the session whenever one exists', ok,
          '__exit__ calls session.close() under %s (required: only `session is not None`)' % (
              sorted({(t, p) for (t, p, _) in guards_of(g, cl[0][0])}) if cl else 'no call'), func=q,
@@ -138,8 +138,7 @@ def exit_(R):
     q3 = WS + '.on_disconnect'
     g3 = R.cfg(q3)
     c3 = calls_to(R, g3, S + '.close')
-    ok = len(c3) == 1 and {(t, p) for (t, p, _) in guards_of(g3, c3[0][0])} in (
-        {('self.state.session is not None', True)}, {('self.session is not None', True)})
+    ok = len(c3) == 1 and match_exact(guard_atom_sets(g3, c3[0][0]), [{('self.state.session is None', False), ('self.session is None', False)}])
     R.ob('C13.exit', 'on_disconnect closes the session whenever one exists', ok, 'on_disconnect guard', func=q3,
          node=(c3[0][1] if c3 else None), construct='on_disconnect guard')
 
